@@ -149,6 +149,27 @@ def shard(shard, nshards, rng, tier, extra):
         cases.append({'s': s, 'nw': nw, 'nf': nf, 'r': rng.choice(RMODES), 'o': rng.choice(OMODES), 'carrier': rng.choice(['arr:float64', 'list', 'tuple', 'list_dec_first']),
                       'route': rng.choice(S.ROUTES[:3]), 'vals': vals, 'setmode': 'slice'})
     check_relations(cases, res, 'T:vanishing-next-to-zeros', keep_array=True)
+    # ---- (F) the values handed over by another fixed-point object (constructor, call, set_val): sources of 16..70 bits holding the values exactly,
+    # integer-valued (built from Python ints) or not, arrays and 0-d objects; the destination is a random core format (negative n_frac included)
+    cases = []
+    for _ in range((3000 if tier == 'quick' else 25000) // nshards):
+        s, nw, nf = S.random_format(rng)
+        if rng.random() < 0.5: nf = -rng.randint(1, 6)
+        W = rng.choice([16, 32, 53, 63, 64, 64, 65, 70]); kind = rng.choice(['int', 'int', 'flt']); F = 0 if kind == 'int' else rng.choice([0, 2, 5])
+        lo, hi = S.fmt_bounds(s, nw); n = rng.choice([1, 1, 3, 4])
+        def one():
+            # around the destination's grid: a code, plus a part of the destination LSB that the source's grid can hold
+            c = rng.choice([lo, hi, 0, 1, -1 if s else 1, rng.randint(lo, hi), rng.randint(lo, hi)])
+            v = Fraction(c) / Fraction(2) ** nf + Fraction(rng.randint(-8, 8), 8) / Fraction(2) ** nf
+            v = Fraction(math.floor(v * 2 ** F), 2 ** F)
+            lim = 2 ** (min(W, 60) - 1 - F)
+            return max(-lim, min(lim - 1, v)) if (s or v >= 0) else abs(v)
+        vals = [one() for _k in range(n)]
+        if any(abs(v) >= 2 ** 45 for v in vals): continue
+        vals = [int(v) if kind == 'int' else S.as_number(v) for v in vals]
+        cases.append({'s': s, 'nw': nw, 'nf': nf, 'r': rng.choice(RMODES), 'o': rng.choice(OMODES), 'carrier': 'fxp_src:%d:%d:%s:%s' % (W, F, kind, 's' if n == 1 and rng.random() < 0.5 else 'a'),
+                      'route': rng.choice(S.ROUTES[:3]), 'vals': vals, 'setmode': 'slice'})
+    check_relations(cases, res, 'F:from-another-fixed-point-object', keep_array=True)
     idempotence(rng, res, tier, shard, nshards)
     decimal_long(rng, (600 if tier == 'quick' else 15000) // nshards, res)
     res.exhaustive = True
